@@ -919,6 +919,7 @@ void var_opt_sketch<T, A>::decrease_k_by_1() {
     // exact mode, but we have some data
     --k_;
     if (h_ > k_) {
+      filled_data_ = true; // all k_ + 1 slots hold items (as in update_warmup_phase): the slot that becomes the gap stays constructed
       transition_from_warmup();
     }
   } else if ((h_ > 0) && (r_ > 0)) {
